@@ -539,6 +539,43 @@ def body_summary(env):
                    key='summary_not_over_all_time_points')
 
 
+def body_power_collection(env):
+    """Orificing._get_power (set-up glue of the grouping; Reactor replaced by a recording factory whose assemblies carry
+    symbolic powers per time point): one Reactor per time point, each asked for *its* time point; the grouping parameter and the
+    power of ungrouped assemblies are the averages over all time points of each assembly's own values."""
+    T, names = env.params['timepoints'], env.params['names']
+    grouped = env.params['grouped']
+    with env.patch(MODS):
+        P = {(t, a): env.pos('power_t%d_a%d' % (t, a), hi=1e8) for t in range(T) for a in range(len(names))}
+        Lp = {(t, a): env.pos('linpower_t%d_a%d' % (t, a), hi=1e6) for t in range(T) for a in range(len(names))}
+        asked = []
+
+        def factory(inp_, **kw):
+            t = kw.get('timestep', 0)
+            asked.append(t)
+            asms = [StubSelf(name=nm, id=a, total_power=P[(t, a)],
+                             power=StubSelf(calculate_avg_peak_linear_power=(lambda t=t, a=a: Lp[(t, a)]))) for a, nm in enumerate(names)]
+            return StubSelf(assemblies=asms, save=lambda *a_, **k_: None)
+        s_ = StubSelf(_bind=(om.Orificing, ['_get_power']), _base_input=StubSelf(path='/nonexistent', timepoints=T), _recycle=False,
+                      orifice_input={'assemblies_to_group': list(grouped)})
+        with env.patch([], extra={(om.dassh, 'Reactor'): factory}):
+            s_._get_power(group_by=env.params['group_by'])
+        env.holds('one Reactor per time point, each asked for its own time point', asked == list(range(T)), key='power_of_another_time_point')
+        gi = [a for a, nm in enumerate(names) if nm in grouped]
+        ni = [a for a, nm in enumerate(names) if nm not in grouped]
+        env.holds('every grouped assembly listed once, in order', [int(x) for x in s_._power[:, 0]] == gi)
+        for row, a in enumerate(gi):
+            env.eq('assembly %d: power used for grouping = average over the time points' % a, s_._power[row, 1] * T, sum(P[(t, a)] for t in range(T)),
+                   tol=1e-9, key='power_of_another_time_point')
+            env.eq('assembly %d: linear power used for grouping = average over the time points' % a, s_._lin_power[row, 1] * T,
+                   sum(Lp[(t, a)] for t in range(T)), tol=1e-9, key='power_of_another_time_point')
+            want = s_._lin_power if env.params['group_by'] == 'linear_power' else s_._power
+            env.eq('assembly %d: grouping parameter is the requested one' % a, s_._power_to_grp[row, 1], want[row, 1])
+        for row, a in enumerate(ni):
+            env.eq('ungrouped assembly %d: power = average over the time points' % a, s_._ng_power[row, 1] * T, sum(P[(t, a)] for t in range(T)),
+                   tol=1e-9, key='power_of_another_time_point')
+
+
 def instances(tier):
     inst = []
     combos = [(2, 1), (2, 2), (3, 2), (3, 3)] if tier == 'quick' else [(2, 1), (2, 2), (3, 1), (3, 2), (3, 3), (4, 2), (4, 3)]
@@ -582,6 +619,10 @@ def instances(tier):
         inst.append(dict(label='orifice-input[rows=%s,ungrouped=%s,empty=%s]' % ('-'.join(map(str, ids)), '-'.join(map(str, ng_)) or 'none',
                                                                                  '-'.join(map(str, empty)) or 'none'),
                          body=body_input_orifice, params={'ids': ids, 'ng': ng_, 'empty': empty, 'npos': npos}))
+    for T, names, grouped, gb in ((1, ('f', 'f', 'b'), ('f',), 'power'), (2, ('f', 'b', 'f'), ('f',), 'linear_power'), (3, ('f', 'f'), ('f',), 'power'),
+                                  (2, ('f', 'b', 'c', 'f'), ('f', 'c'), 'power')):
+        inst.append(dict(label='power-collection[time points=%d,assemblies=%s,grouped=%s,by %s]' % (T, '-'.join(names), '+'.join(grouped), gb),
+                         body=body_power_collection, params={'timepoints': T, 'names': names, 'grouped': grouped, 'group_by': gb}))
     for groups, T in (((0, 1), 1), ((0, 1), 2), ((0, 1, 1), 2)) + (() if tier == 'quick' else (((0, 0, 1), 3),)):
         inst.append(dict(label='sweep-summary[groups=%s,time points=%d]' % ('-'.join(map(str, groups)), T), body=body_summary,
                          params={'groups': groups, 'timepoints': T}, max_paths=20000, max_depth=200))
